@@ -521,6 +521,7 @@ pub fn run(ctx: &mut Ctx) {
         let mut plan: Vec<A> = vec![];
         let mut deleted_one = false;
         for _ in 0..nops {
+            let plan_len_before = plan.len();
             let k = r.weighted(&[6, 5, 2, 3, 3, 2, 2, 2, 2, 1, 2]);
             match k {
                 0 => {
@@ -623,7 +624,8 @@ pub fn run(ctx: &mut Ctx) {
                 8 => plan.push(A::ImpGlobal(uid(), r.below(4))),
                 9 => {
                     // the last base local function is referenced by nothing
-                    let cand: Vec<usize> = (0..hs.len()).filter(|h| hs[*h].sp == Sp::F && !hs[*h].imp && hs[*h].uid != glob_reader_uid && !hs[*h].deleted && hs[*h].id != u32::MAX).collect();
+                    // a base function nothing refers to: the last local one, or (half of the time) an imported one
+                    let cand: Vec<usize> = (0..hs.len()).filter(|h| hs[*h].sp == Sp::F && hs[*h].uid != glob_reader_uid && !hs[*h].deleted && hs[*h].id != u32::MAX).collect();
                     // never delete something a planned export or initialiser refers to (that must fail loudly: C09)
                     let used = |h: usize| {
                         export_uses.iter().any(|(_, x)| *x == h)
@@ -633,7 +635,8 @@ pub fn run(ctx: &mut Ctx) {
                     let cand: Vec<usize> = cand.into_iter().filter(|h| !used(*h)).collect();
                     if !deleted_one && !cand.is_empty() {
                         deleted_one = true;
-                        let h = *cand.last().unwrap();
+                        let imps: Vec<usize> = cand.iter().cloned().filter(|h| hs[*h].imp).collect();
+                        let h = if !imps.is_empty() && r.chance(1, 2) { *r.pick(&imps) } else { *cand.last().unwrap() };
                         hs[h].deleted = true;
                         plan.push(A::DelFunc(h));
                     }
@@ -647,7 +650,7 @@ pub fn run(ctx: &mut Ctx) {
                 }
             }
             // handles of things that will exist after this step (so that later steps can refer to them)
-            match plan.last() {
+            match if plan.len() > plan_len_before { plan.last() } else { None } {
                 Some(A::Build(b)) => hs.push(Handle { sp: Sp::F, id: u32::MAX, uid: builts[*b].uid, imp: false, deleted: false }),
                 Some(A::Mem(m)) => hs.push(Handle { sp: Sp::M, id: u32::MAX, uid: amems[*m].uid, imp: amems[*m].imported, deleted: false }),
                 Some(A::ImpFunc(u)) => hs.push(Handle { sp: Sp::F, id: u32::MAX, uid: *u, imp: true, deleted: false }),
@@ -754,7 +757,8 @@ pub fn run(ctx: &mut Ctx) {
                 A::ModInit(_) => "nop".into(),
                 A::Data(_) => "nop".into(),
                 A::Mem(k) => format!("{}:{}", if amems[*k].imported { "aim" } else { "alm" }, amems[*k].uid),
-                A::ExportF(..) | A::ExportM(..) => "nop".into(),
+                A::ExportF(h, n) => format!("nop:{n}=F{}", hs_run[*h].id),
+                A::ExportM(h, n) => format!("nop:{n}=M{}", hs_run[*h].id),
                 A::ImpFunc(u) => format!("aif:{u}"),
                 A::ImpGlobal(u, _) => format!("aig:{u}"),
                 A::DelFunc(h) => format!("df:{}", hs_run[*h].id),
